@@ -19,6 +19,7 @@ import (
 	"verif/harness/fw"
 	"verif/harness/refmatch"
 	"verif/harness/simnet"
+	"verif/harness/wirefmt"
 )
 
 func init() { register("C12", checkC12) }
@@ -494,6 +495,20 @@ func checkC12() fw.Check {
 					id := fmt.Sprintf("C12/e2e/%s/%s", v.Name, fm.name)
 					cases = append(cases, fw.Case{ID: id, Bubble: true, Run: func(c *fw.Ctx) { runC12E2E(c, id, v, fm) }})
 				}
+			}
+			// a target whose probed UDP port is open: it answers the probe datagram with a datagram of its own and sends no
+			// ICMP error. Whatever the matcher makes of that answer, the filter the UDP run installs must let it see the same
+			for _, vn := range []string{"udp4", "udp6"} {
+				v := refmatch.VariantByName(vn)
+				fm := form{name: "udp-answer-from-open-port", applies: anyV, dest: func(e *simEnv, p *refmatch.Probe) []byte {
+					d := wirefmt.UDP(e.spec.Target, e.local, e.spec.Port, e.lport, []byte("pong"))
+					if v.V6 {
+						return wirefmt.IPv6{NextHeader: wirefmt.ProtoUDP, HopLimit: 60, Src: e.spec.Target, Dst: e.local}.Marshal(d)
+					}
+					return wirefmt.IPv4{TTL: 60, Proto: wirefmt.ProtoUDP, Src: e.spec.Target, Dst: e.local}.Marshal(d)
+				}}
+				id := fmt.Sprintf("C12/e2e/%s/%s", v.Name, fm.name)
+				cases = append(cases, fw.Case{ID: id, Bubble: true, Run: func(c *fw.Ctx) { runC12E2E(c, id, v, fm) }})
 			}
 			// the filter each run installs vs the probes that run really sends, when one protocol object is used for several runs
 			cases = append(cases, objectReuseCases("C12")...)
